@@ -143,8 +143,9 @@ def hit_date(draw):
 
 
 @st.composite
-def hit_atom(draw, depth, max_depth):
-    k = draw(st.integers(0, 21))
+def hit_atom(draw, depth, max_depth, k=None):
+    if k is None:
+        k = draw(st.integers(0, 21))
     neg = draw(st.integers(0, 2)) == 0
     if k < 2:
         return draw(Q.kinds_atom())
@@ -205,6 +206,9 @@ def hit_atom(draw, depth, max_depth):
     return {"t": "link", "page": draw(st.sampled_from(PAGES + ["zz"])), "neg": neg}
 
 
+_K_OF_KIND = {"tag": 4, "create": 7, "modify": 7, "prop": 9, "desc": 13, "file": 17}
+
+
 @st.composite
 def link_atom(draw):
     return {"t": "link", "page": draw(st.sampled_from(PAGES + ["zz"])), "neg": draw(st.integers(0, 2)) == 0}
@@ -216,6 +220,15 @@ def hit_and(draw, depth, max_depth):
     atoms = [draw(hit_atom(depth, max_depth)) for _ in range(n)]
     if draw(st.integers(0, 5)) == 0:
         atoms.append(draw(link_atom()))
+    if draw(st.integers(0, 3)) == 0:
+        # a second (third) atom of a kind the group already has: conditions of one kind are combined
+        # per kind, so "first one only" / "last one wins" mistakes need two of them
+        t = draw(st.sampled_from([a["t"] for a in atoms]))
+        for _ in range(draw(st.sampled_from([1, 1, 2]))):
+            if t == "link":
+                atoms.append(draw(link_atom()))
+            elif t in _K_OF_KIND:
+                atoms.append(draw(hit_atom(max_depth, max_depth, k=_K_OF_KIND[t])))
     return {"atoms": atoms}
 
 
